@@ -755,7 +755,8 @@ def compare_schemas(write: Any, read: Any) -> Any:
     if isinstance(write, Mapping):
         if not isinstance(read, Mapping):
             raise ValueError
-        merged: Dict[str, Any] = {}
+        # JsonSchema, as schemas are converted by their class for other versions
+        merged: Dict[str, Any] = JsonSchema()
         for key in write.keys() | read.keys():
             if key in write and key in read:
                 if key == "properties":
@@ -766,9 +767,13 @@ def compare_schemas(write: Any, read: Any) -> Any:
                                 write[key][prop], read[key][prop]
                             )
                         elif prop in write[key]:
-                            merged[key][prop] = {**write[key][prop], "writeOnly": True}
+                            merged[key][prop] = JsonSchema(
+                                {**write[key][prop], "writeOnly": True}
+                            )
                         else:
-                            merged[key][prop] = {**read[key][prop], "readOnly": True}
+                            merged[key][prop] = JsonSchema(
+                                {**read[key][prop], "readOnly": True}
+                            )
                 elif key in {
                     "required",
                     "dependentRequired",
